@@ -39,7 +39,7 @@ CHECKS = {
         "histories to the depth bound; each transition of the first levels and of simulated deeper behaviours is executed on real "
         "Config objects and the projected state compared; random operation logs from real objects are validated by TLC "
         "(Trace_Config) with the predicates evaluated on every observed state.",
-        note="Bounded instance MC_Config/SchemaA (scalars with bounds/transforms, typed list and dict, nested schemas with a validator, lists of schemas with and without defaults), candidate pools, depth 3 (quick) / 4 (thorough); object identity observed as the set of replaced paths; values outside the model's grammars are marked Unmodelled and skipped (counted in evidence).  Also decided on the generated schema family (MC_Config.MCFamily2/3: every root schema over 16 node shapes, candidate values derived per field kind by ConfigMachine!Gen*): TLC over all 256 (thorough: + 960 three-key) schemas, replay of every 7th (thorough: 2nd) schema's complete depth-1 graph and simulated behaviours on real objects, recorded traces on sampled schemas.",
+        note="Bounded instance MC_Config/SchemaA (scalars with bounds/transforms, typed list and dict, nested schemas with a validator, lists of schemas with and without defaults), candidate pools, depth 3 (quick) / 4 (thorough); object identity observed as the set of replaced paths; values outside the model's grammars are marked Unmodelled and skipped (counted in evidence).  Also decided on the generated schema family (MC_Config.MCFamilyAt2/3: every two-key root schema over 37 node shapes, a three-key family in the thorough tier; candidate values derived per field kind by ConfigMachine!Gen*): TLC, complete depth-1 graph replay and simulated behaviours on real objects for a seed-selected slice (quick: every 9th schema plus the same-shape diagonal; thorough: every 6th at depth 2), recorded traces on sampled schemas; read-only queries between steps, argument-aliasing probe, shared-container and schema-fingerprint observations (DESIGN.md 0.7 / 0.8).",
         technique="TLA+ state machine of Config + TLC invariants/action properties; transition replay into code; TLC trace validation",
         design="5/C01",
     ),
@@ -49,7 +49,7 @@ CHECKS = {
         "incl. map or configuration -> sub-configuration, or a rejected single-element insert/replace on a typed list or dict, "
         "changes nothing: values at all depths, default marks, identity of nested configurations) on ConfigMachine; same two "
         "conformance directions as C01, the trace specification evaluates the predicate on every rejected observed step.",
-        note="Bounded instance MC_Config/SchemaA (scalars with bounds/transforms, typed list and dict, nested schemas with a validator, lists of schemas with and without defaults), candidate pools, depth 3 (quick) / 4 (thorough); object identity observed as the set of replaced paths; values outside the model's grammars are marked Unmodelled and skipped (counted in evidence).  Also decided on the generated schema family (MC_Config.MCFamily2/3: every root schema over 16 node shapes, candidate values derived per field kind by ConfigMachine!Gen*): TLC over all 256 (thorough: + 960 three-key) schemas, replay of every 7th (thorough: 2nd) schema's complete depth-1 graph and simulated behaviours on real objects, recorded traces on sampled schemas.  The document-load clause is covered where loads are modelled (C18 machinery) once built.",
+        note="Bounded instance MC_Config/SchemaA (scalars with bounds/transforms, typed list and dict, nested schemas with a validator, lists of schemas with and without defaults), candidate pools, depth 3 (quick) / 4 (thorough); object identity observed as the set of replaced paths; values outside the model's grammars are marked Unmodelled and skipped (counted in evidence).  Also decided on the generated schema family (MC_Config.MCFamilyAt2/3: every two-key root schema over 37 node shapes, a three-key family in the thorough tier; candidate values derived per field kind by ConfigMachine!Gen*): TLC, complete depth-1 graph replay and simulated behaviours on real objects for a seed-selected slice (quick: every 9th schema plus the same-shape diagonal; thorough: every 6th at depth 2), recorded traces on sampled schemas; read-only queries between steps, argument-aliasing probe, shared-container and schema-fingerprint observations (DESIGN.md 0.7 / 0.8).  The document-load clause is decided on IncludeLab (harness/props/loadfail.py: a rejected file load leaves the configuration as it was); C06_SetUnchanged is also checked on PersistMachine (rejected assignments of secrets, vault maps, adopted configurations).",
         technique="TLA+ action property over all routes x rejected values x prior states; replay into code; TLC trace validation",
         design="5/C06",
     ),
@@ -59,7 +59,7 @@ CHECKS = {
         "C12_Marks (the mark leaves exactly on an accepted assignment, never on a rejected one) and C12_Reset (value and mark "
         "restored, frame) on ConfigMachine over all interleavings of set / failed set / load / reset / constructor to the depth bound; "
         "conformance as for C01 with is_value_defined projected for every key at every depth.",
-        note="Bounded instance MC_Config/SchemaA (scalars with bounds/transforms, typed list and dict, nested schemas with a validator, lists of schemas with and without defaults), candidate pools, depth 3 (quick) / 4 (thorough); object identity observed as the set of replaced paths; values outside the model's grammars are marked Unmodelled and skipped (counted in evidence).  Also decided on the generated schema family (MC_Config.MCFamily2/3: every root schema over 16 node shapes, candidate values derived per field kind by ConfigMachine!Gen*): TLC over all 256 (thorough: + 960 three-key) schemas, replay of every 7th (thorough: 2nd) schema's complete depth-1 graph and simulated behaviours on real objects, recorded traces on sampled schemas.  The generated family runs with every operation followed by a reset of each field (NextThenReset).",
+        note="Bounded instance MC_Config/SchemaA (scalars with bounds/transforms, typed list and dict, nested schemas with a validator, lists of schemas with and without defaults), candidate pools, depth 3 (quick) / 4 (thorough); object identity observed as the set of replaced paths; values outside the model's grammars are marked Unmodelled and skipped (counted in evidence).  Also decided on the generated schema family (MC_Config.MCFamilyAt2/3: every two-key root schema over 37 node shapes, a three-key family in the thorough tier; candidate values derived per field kind by ConfigMachine!Gen*): TLC, complete depth-1 graph replay and simulated behaviours on real objects for a seed-selected slice (quick: every 9th schema plus the same-shape diagonal; thorough: every 6th at depth 2), recorded traces on sampled schemas; read-only queries between steps, argument-aliasing probe, shared-container and schema-fingerprint observations (DESIGN.md 0.7 / 0.8).  The generated family runs with every operation followed by a reset of each field (NextThenReset).",
         technique="TLA+ invariants/action properties on default marks; replay into code; TLC trace validation",
         design="5/C12",
     ),
@@ -69,8 +69,9 @@ CHECKS = {
         "ConfigMachine; because the specification has value semantics, any aliasing in the implementation (shared default lists, "
         "shared item configurations, shared sub-configurations) shows up in conformance as a state change of the untouched "
         "configuration that the specification does not allow.",
-        note="Bounded instance MC_Config/SchemaA (scalars with bounds/transforms, typed list and dict, nested schemas with a validator, lists of schemas with and without defaults), candidate pools, depth 3 (quick) / 4 (thorough); object identity observed as the set of replaced paths; values outside the model's grammars are marked Unmodelled and skipped (counted in evidence).  Also decided on the generated schema family (MC_Config.MCFamily2/3: every root schema over 16 node shapes, candidate values derived per field kind by ConfigMachine!Gen*): TLC over all 256 (thorough: + 960 three-key) schemas, replay of every 7th (thorough: 2nd) schema's complete depth-1 graph and simulated behaviours on real objects, recorded traces on sampled schemas.",
+        note="Bounded instance MC_Config/SchemaA (scalars with bounds/transforms, typed list and dict, nested schemas with a validator, lists of schemas with and without defaults), candidate pools, depth 3 (quick) / 4 (thorough); object identity observed as the set of replaced paths; values outside the model's grammars are marked Unmodelled and skipped (counted in evidence).  Also decided on the generated schema family (MC_Config.MCFamilyAt2/3: every two-key root schema over 37 node shapes, a three-key family in the thorough tier; candidate values derived per field kind by ConfigMachine!Gen*): TLC, complete depth-1 graph replay and simulated behaviours on real objects for a seed-selected slice (quick: every 9th schema plus the same-shape diagonal; thorough: every 6th at depth 2), recorded traces on sampled schemas; read-only queries between steps, argument-aliasing probe, shared-container and schema-fingerprint observations (DESIGN.md 0.7 / 0.8).",
         technique="TLA+ action property (frame on the other configuration); replay into code exposes aliasing; TLC trace validation",
+        extra_note="  File loads are covered by the IncludeLab world (two configurations of one schema loading documents with includes; prefix file-load-sharing).",
         design="5/C13",
     ),
     "C02": dict(
@@ -151,7 +152,7 @@ CHECKS = {
         "for random values of every shape.",
         note="Bounded instance MC_Config/SchemaA with nested schemas, a config type, lists of schemas and of config types (equal "
         "items), typed dicts at three positions; unknown keys, read-only virtual fields and container index/key errors are outside "
-        "the statement; the index reported for an item rejected by insert()/item assignment is left free.  Also decided on the generated schema family (MC_Config.MCFamily2/3: every root schema over 16 node shapes, candidate values derived per field kind by ConfigMachine!Gen*): TLC over all 256 (thorough: + 960 three-key) schemas, replay of every 7th (thorough: 2nd) schema's complete depth-1 graph and simulated behaviours on real objects, recorded traces on sampled schemas.",
+        "the statement; the index reported for an item rejected by insert()/item assignment is left free.  Also decided on the generated schema family (MC_Config.MCFamilyAt2/3: every two-key root schema over 37 node shapes, a three-key family in the thorough tier; candidate values derived per field kind by ConfigMachine!Gen*): TLC, complete depth-1 graph replay and simulated behaviours on real objects for a seed-selected slice (quick: every 9th schema plus the same-shape diagonal; thorough: every 6th at depth 2), recorded traces on sampled schemas; read-only queries between steps, argument-aliasing probe, shared-container and schema-fingerprint observations (DESIGN.md 0.7 / 0.8).",
         technique="TLA+ error-path model over the containment structure + TLC invariant; replay compares ref_path and exception class",
         design="5/C15",
     ),
@@ -254,6 +255,21 @@ CHECKS = {
     ),
 }
 
+EXTRA = {
+    "C02": "  Later rounds: the schema family with every first step followed by dumps / fresh loads in each format (NextThenRoundTrip); Rebuild (constructor keywords holding the stored trees of sub-configurations); Adopt (a configuration of another root assigned as a sub-configuration); save + load next to dumps + loads, compared as abstract trees; keys with '-' and '.', blank / 16 / 32-character secrets, 60-byte blobs.",
+    "C03": "  Key-file placement family (harness/props/persistk.py): SchemaK with three config types that may each name a key file x the root on the default or a named key file = 16 placements (quick: all-named + two seeded; thorough: all), real key files per placement, every ciphertext attributed to a key file by independent decryption, key files opened recorded by wrapping builtins.open.",
+    "C07": "  Later rounds: malformed contents hex / hex+newline / key+LF / key+CRLF (ExtBad), an external writer replacing or removing the file while a context is open (ExternalDuring), Decrypt probing every 32-byte candidate key.",
+    "C08": "  Later rounds: Swap (the key file replaced between operations; stored shapes relative to the key now on file), EncryptPair (two encryptions of one plaintext: distinct IVs), BuildDefault (a secure field with a default), nonce count in the compared state, rare 4 KiB plaintexts.",
+    "C09": "  Later rounds: challenge defaults (BuildDefault: salt drawn at build), hand-written digests in documents, non-digest values, secrets unique across names in the driver.",
+    "C10": "  Sensitive composites (a sensitive typed list / dict) are Unmodelled in Render and skipped (counted).",
+    "C12": "  Also the schema family with every first step followed by reset of every key (NextThenReset), item-level reset and same-value item assignment on typed lists.",
+    "C15": "  C15_DictItemError: item assignment / setdefault on typed dicts (incl. a map of typed maps) compare the full reference path with the key.",
+    "C17": "  Keyword update, reflected add / or (radd, ror).",
+    "C18": "  Formatter options (YAML root_key, XML root_tag, JSON pretty) given to loads(), under which the including document and the included files are read; a decoy load of another configuration from a sibling directory precedes each case.",
+    "C19": "  Later rounds: tuple-valued fields (Accepts / Coerces), destination names with $VARIABLE kept literally, destinations that are symbolic links, plain ints beyond 16 bits.",
+    "C20": "  Later rounds: classes local to a function and nested classes inside typing generics / unions (defect 2dbdf54 repaired), tuple return annotations (Unrendered), functools.partial instance methods, help text on fields, a Diagnoser that renders every field / annotation alone to name the shape a rejected stub fails on.",
+}
+
 PENDING_REASON = "check not built yet in this round (planned, see DESIGN.md section 5); nothing is claimed for it"
 
 
@@ -277,7 +293,7 @@ def build():
                     "text": c["text"],
                     "design_ref": "DESIGN.md section " + c["design"],
                 },
-                "level_note": c["note"],
+                "level_note": c["note"] + c.get("extra_note", "") + EXTRA.get(pid, ""),
                 "technique": c["technique"],
             }
         )
